@@ -207,7 +207,7 @@ func finish(o RunOpts, spec *PropSpec, ov *Overlay, jobs []Job, results []*jobRe
 		dkey := p.v.Label + "|" + p.v.KF
 		dir := filepath.Join(VerifDir, "replays", o.Prop)
 		os.MkdirAll(dir, 0o755)
-		fname := filepath.Join(dir, sanitize(p.v.Job+"-"+p.v.Label)+".json")
+		fname := filepath.Join(dir, sanitize(p.v.Dir+"-"+p.v.Job+"-"+p.v.Label)+".json")
 		p.v.Replay = fmt.Sprintf("cd /verif && bin/vcheck replay %s", fname)
 		b, _ := json.MarshalIndent(p.v, "", " ")
 		os.WriteFile(fname, b, 0o644)
